@@ -291,13 +291,16 @@ Take(i, idx, how, k) ==
     /\ pool' = [pool EXCEPT ![k] = Taken(pool[i], idx)]
     /\ ghost' = [ghost EXCEPT ![k] = Untracked]
 
-(* i[[2, 0]] / i[[1, 1]]: an index array that is not increasing; the statement says index arrays are   *)
-(* taken in increasing order, so the result is the selection of the sorted distinct positions.          *)
+(* i[[2, 0]] / i[[1, 1]] / i[[0, -1]]: an index array that is not an increasing list of non-negative positions.  *)
+(* Negative entries count from the end (numpy); the statement says index arrays are taken in increasing order, *)
+(* so the result is the selection of the sorted distinct positions addressed.                                  *)
+NormIx(n, x) == IF x < 0 THEN x + n ELSE x
 TakeUnsorted(i, idx, k) ==
     /\ Live /\ On("TakeUnsorted") /\ Has(i) /\ Free(k) /\ Len(idx) > 0
-    /\ \A x \in 1..Len(idx) : idx[x] \in 0..(Len(pool[i].bins) - 1)
-    /\ \E x \in 1..(Len(idx) - 1) : idx[x] >= idx[x + 1]
-    /\ pool' = [pool EXCEPT ![k] = Taken(pool[i], SetToSortSeq({idx[x] : x \in 1..Len(idx)}, LAMBDA a, b : a < b))]
+    /\ \A x \in 1..Len(idx) : idx[x] \in (0 - Len(pool[i].bins))..(Len(pool[i].bins) - 1)
+    /\ \/ \E x \in 1..Len(idx) : idx[x] < 0
+       \/ \E x \in 1..(Len(idx) - 1) : idx[x] >= idx[x + 1]
+    /\ pool' = [pool EXCEPT ![k] = Taken(pool[i], SetToSortSeq({NormIx(Len(pool[i].bins), idx[x]) : x \in 1..Len(idx)}, LAMBDA a, b : a < b))]
     /\ ghost' = [ghost EXCEPT ![k] = Untracked]
 
 (* reversed slice, wrongly sized mask, out-of-range index: refused, the source is untouched *)
